@@ -156,6 +156,16 @@ def compare(F, c, g):
                       "text %s signed; variant %s: library %s, prescribed %s (canonical forms %s)" % (
                           c["in"]["orig"], c["in"]["variants"][k], "accepts" if ga else "refuses", "accept" if ea else "refuse",
                           "equal" if ea else "differ"))
+        for k, (ea, ga) in enumerate(zip(e["accept"], g.get("accept_file", []))):
+            if ea != ga:
+                # the one recorded divergence: the file reader drops every carriage return at the end of a line and of the
+                # document; a disagreement is attributed to it only if that rule, and nothing else, explains the verdict
+                o, v = c["in"]["orig"], c["in"]["variants"][k]
+                why = "trailing-cr-run" if ga == (file_canon(v) == mem_canon(o)) else ("refused-same-text" if ea else "accepted-other-text")
+                F.add("textcanon-file:%s" % why, c, g,
+                      "text %s signed; variant %s read from a file (Verify(key, filename)): library %s, prescribed %s (canonical forms %s)" % (
+                          c["in"]["orig"], c["in"]["variants"][k], "accepts" if ga else "refuses", "accept" if ea else "refuse",
+                          "equal" if ea else "differ"))
         return
     if op in ("seipd", "aead", "pkesk"):
         if g.get("encrypt") != "ok" or g.get("key") == "bad":
@@ -192,6 +202,30 @@ def report(ck, F, seed, tier, replay_path=None):
                                                "failing_cases_of_this_key": [[x[0]["fam"], x[0]["i"], cfgname(x[0])] for x in F.bykey[key]][:100]})
 
 # ---------------------------------------------------------------------------------------------- direction B
+def mem_canon(t):
+    """what TextDocumentHash hashes for a text in memory: a carriage return in front of every bare line feed"""
+    out = []
+    for i, b in enumerate(t):
+        if b == 10 and (i == 0 or t[i - 1] != 13):
+            out.append(13)
+        out.append(b)
+    return out
+
+def file_canon(t):
+    """the rule of HashComputeFile in text mode as recorded in the finding: lines end at LF, all CRs at the end of a line
+    (also of the last, unterminated one) are dropped, CR LF is written after every terminated line"""
+    out, line = [], []
+    for b in t:
+        if b == 10:
+            while line and line[-1] == 13:
+                line.pop()
+            out += line + [13, 10]; line = []
+        else:
+            line.append(b)
+    while line and line[-1] == 13:
+        line.pop()
+    return out + line
+
 def validate_trace(name, events):
     tf = os.path.join(ODIR, "tv-%s.ndjson" % name)
     vlib.write_ndjson(tf, events)
@@ -294,7 +328,7 @@ def run(tier, seed):
     vlib.log("generation done at %.0fs" % (time.time() - ck.t0))
     # ---- A: the real code on every case, in parallel driver processes (each generates the same keys from the seed)
     allc = [c for f in sorted(results) for c in sorted(results[f], key=lambda c: c["i"])]
-    weight = {"sig": 6, "sigq": 6, "sigx": 6, "aead": 4, "aeadq": 4, "aeadx": 6, "textcanon5": 12, "doclen": 1, "doclenq": 1, "seipd": 1, "pkesk": 8, "valid": 0.01, "sesskey": 0.1, "textcanon3": 1, "textcanon4": 2}
+    weight = {"sig": 6, "sigq": 6, "sigx": 6, "aead": 4, "aeadq": 4, "aeadx": 6, "textcanon5": 40, "doclen": 1, "doclenq": 1, "seipd": 1, "pkesk": 8, "valid": 0.01, "sesskey": 0.1, "textcanon3": 2, "textcanon4": 12}
     nproc = 10 if quick else 14
     bins = [[0.0, []] for _ in range(nproc)]
     for c in sorted(allc, key=lambda c: -weight.get(c["fam"], 1)):
@@ -353,7 +387,7 @@ def run(tier, seed):
     ck.cov["exhaustive"] = False
     ck.cov["exhaustive_parts"] = ["every octet of every signature packet, key packet, signed object, SEIPD / AEAD / PKESK packet of the enumerated "
                                   "configurations is altered with the masks %s" % masks(tier),
-                                  "validity rules: every boundary +-1 second x 13 hash ids (2600 cases)",
+                                  "validity rules: every boundary +-1 second x 13 hash ids x 4 contents of the unhashed subpacket area (10400 cases)",
                                   "all texts over {a, CR, LF} up to length %d as original x as variant" % (3 if quick else 5),
                                   "symbolic attacker model: all alteration sequences up to the configured depth"]
     ck.assumptions += ["hash functions, public-key schemes, block ciphers and AEAD modes are ideal (symbolic) in the specification; the driver uses the real ones with small keys (RSA-1024, DSA-1024/160, ElGamal-1024, P-256, Ed25519, P-384)",
